@@ -595,3 +595,15 @@ Proof.
       apply mem_In. unfold dbs_of. apply in_map. exact Hf. }
     split; [exact Hcr|]. exact (dropped_exactly_once _ _ _ Hp Hc _ Hcr).
 Qed.
+
+(* at every point of every run of the driver: at most [jobs] files have sessions open, and a database with an open session
+   belongs to one of them (C17_bounded_concurrency, of the driver itself) *)
+Corollary driver_files_in_flight_bounded cf sched st tr :
+  wf_cfg cf -> drun cf (dst0 cf) sched = (st, tr) ->
+  exists p, prun (mkParams (c_jobs cf) (kept_of cf st)) pst0 tr = Some p /\
+            (length (inflight p) <= c_jobs cf)%nat /\
+            (forall db, has_open db (sessions p) = true -> In db (inflight p)).
+Proof.
+  intros Wf H. destruct (driver_refines_observer cf sched st tr Wf H) as [p [Hp _]].
+  exists p. split; [exact Hp|]. exact (bounded_concurrency _ _ _ Hp).
+Qed.
